@@ -9,35 +9,296 @@ Open Scope list_scope.
 
 Opaque iana_name identify_sig is_multi_byte is_cp_similar.
 
-(* ---------- the probing order: hints first, in first-occurrence order ---------- *)
-Fixpoint dedup (l : list string) : list string :=
-  match l with [] => [] | x :: r => x :: remove_all x (dedup r) end
-with remove_all (s : string) (l : list string) : list string :=
-  match l with [] => [] | x :: r => if String.eqb x s then remove_all s r else x :: remove_all s r end.
-
-Lemma remove_first_notin s l : mem s l = false -> remove_first s l = l.
+(* ---------- the probing order puts the hints first ---------- *)
+Lemma remove_first_In s l x : In x (remove_first s l) -> In x l.
 Proof.
-  induction l as [|x l IH]; cbn [mem remove_first]; [reflexivity|].
-  destruct (String.eqb x s); cbn [orb]; [discriminate|]. intro H. rewrite IH by exact H. reflexivity.
+  induction l as [|y l IH]; cbn [remove_first]; [tauto|].
+  destruct (String.eqb y s); [intro; right; assumption|]. intros [<-|H]; [left; reflexivity|right; auto].
 Qed.
 
-Lemma remove_first_app_in s l1 l2 : mem s l1 = true -> remove_first s (l1 ++ l2) = remove_first s l1 ++ l2.
+Lemma remove_first_app s l1 l2 :
+  remove_first s (l1 ++ l2) = if mem s l1 then remove_first s l1 ++ l2 else l1 ++ remove_first s l2.
 Proof.
-  induction l1 as [|x l1 IH]; cbn [mem remove_first app]; [discriminate|].
-  destruct (String.eqb x s); cbn [orb]; [reflexivity|]. intro H. rewrite IH by exact H. reflexivity.
+  induction l1 as [|y l1 IH]; cbn [mem remove_first app]; [reflexivity|].
+  destruct (String.eqb y s); cbn [orb]; [reflexivity|]. rewrite IH. destruct (mem s l1); reflexivity.
 Qed.
 
-Lemma remove_first_app_notin s l1 l2 : mem s l1 = false -> remove_first s (l1 ++ l2) = l1 ++ remove_first s l2.
+Lemma remove_first_NoDup_notin s l : NoDup l -> ~ In s (remove_first s l).
 Proof.
-  induction l1 as [|x l1 IH]; cbn [mem remove_first app]; [reflexivity|].
-  destruct (String.eqb x s); cbn [orb]; [discriminate|]. intro H. rewrite IH by exact H. reflexivity.
+  induction l as [|y l IH]; intro H; cbn [remove_first]; [tauto|]. inversion H; subst.
+  destruct (String.eqb y s) eqn:E; [apply String.eqb_eq in E; subst; assumption|].
+  intros [->|Hin]; [rewrite String.eqb_refl in E; discriminate|]. apply IH; assumption.
 Qed.
 
-Lemma mem_app s l1 l2 : mem s (l1 ++ l2) = mem s l1 || mem s l2.
-Proof. induction l1 as [|x l1 IH]; cbn [mem app]; [reflexivity|]. rewrite IH, orb_assoc. reflexivity. Qed.
+Lemma NoDup_app_r {A} (l1 l2 : list A) : NoDup (l1 ++ l2) -> NoDup l2.
+Proof. induction l1 as [|x l1 IH]; cbn [app]; [auto|]. intro H. inversion H; auto. Qed.
 
-(* the order is: the hints that are supported, each once, in order of first occurrence, then the
-   remaining supported names in their original order *)
-Definition hints_in (prio l : list string) : list string := dedup_first (filter (fun h => mem h l) prio)
-with dedup_first := fix df (l : list string) : list string :=
-  match l with [] => [] | x :: r => x :: filter (fun y => negb (String.eqb y x)) (df r) end.
+Lemma NoDup_app_disj {A} (l1 l2 : list A) x : NoDup (l1 ++ l2) -> In x l1 -> ~ In x l2.
+Proof.
+  induction l1 as [|y l1 IH]; cbn [app]; intros H Hin; [destruct Hin|]. inversion H; subst.
+  destruct Hin as [->|Hin]; [intro Hx; apply H2, in_or_app; right; exact Hx|apply IH; assumption].
+Qed.
+
+(* prioritize prio l = H ++ T with H made of hints and T free of hints *)
+Lemma prioritize_hints_first prio l :
+  NoDup l -> exists H T, prioritize prio l = H ++ T /\ (forall x, In x H -> In x prio) /\ (forall x, In x T -> ~ In x prio).
+Proof.
+  intro Hnd. induction prio as [|p ps IH].
+  - exists [], l. cbn. auto.
+  - assert (Hstep : prioritize (p :: ps) l = move_front (prioritize ps l) p).
+    { unfold prioritize. cbn [rev]. rewrite fold_left_app. reflexivity. }
+    destruct IH as (H & T & Heq & HH & HT). rewrite Hstep, Heq. unfold move_front.
+    assert (HndHT : NoDup (H ++ T)) by (rewrite <- Heq; apply prioritize_NoDup; exact Hnd).
+    destruct (mem p (H ++ T)) eqn:Hm.
+    + rewrite remove_first_app. destruct (mem p H) eqn:HmH.
+      * exists (p :: remove_first p H), T. split; [reflexivity|]. split.
+        -- intros x [<-|Hx]; [left; reflexivity|right; apply HH; eapply remove_first_In; eauto].
+        -- intros x Hx [<-|Hin]; [|exact (HT x Hx Hin)].
+           apply mem_In in HmH. exact (NoDup_app_disj H T p HndHT HmH Hx).
+      * exists (p :: H), (remove_first p T). split; [reflexivity|]. split.
+        -- intros x [<-|Hx]; [left; reflexivity|right; apply HH; exact Hx].
+        -- intros x Hx [<-|Hin].
+           ++ apply NoDup_app_r in HndHT. exact (remove_first_NoDup_notin p T HndHT Hx).
+           ++ apply (HT x); [eapply remove_first_In; eauto|exact Hin].
+    + exists H, T. split; [reflexivity|]. split.
+      * intros x Hx. right. apply HH; exact Hx.
+      * intros x Hx [<-|Hin]; [|exact (HT x Hx Hin)].
+        assert (Hin : In p (H ++ T)) by (apply in_or_app; right; exact Hx). apply mem_In in Hin. congruence.
+Qed.
+
+Lemma prefix_in {A} (pre : list A) h post : forall H T,
+  pre ++ h :: post = H ++ T -> NoDup (H ++ T) -> In h H -> forall x, In x pre -> In x H.
+Proof.
+  induction pre as [|y pre IH]; intros H T Heq Hnd Hh x Hx; [destruct Hx|].
+  destruct H as [|z H]; [destruct Hh|]. cbn [app] in Heq. injection Heq as -> Heq.
+  destruct Hx as [<-|Hx]; [left; reflexivity|]. right. cbn [app] in Hnd. inversion Hnd; subst.
+  apply (IH H T Heq H3); [|exact Hx].
+  destruct Hh as [->|Hh]; [|exact Hh]. exfalso. apply H2. rewrite <- Heq. apply in_or_app. right. left. reflexivity.
+Qed.
+
+Lemma prioritize_before_hint prio l pre h post :
+  NoDup l -> prioritize prio l = pre ++ h :: post -> In h prio -> forall x, In x pre -> In x prio.
+Proof.
+  intros Hnd Heq Hh x Hx. destruct (prioritize_hints_first prio l Hnd) as (H & T & HHT & HH & HT).
+  assert (HndHT : NoDup (H ++ T)) by (rewrite <- HHT; apply prioritize_NoDup; exact Hnd).
+  rewrite Heq in HHT. assert (HhH : In h H).
+  { assert (Hin : In h (H ++ T)) by (rewrite <- HHT; apply in_or_app; right; left; reflexivity).
+    apply in_app_or in Hin as [Hin|Hin]; [exact Hin|]. exfalso. exact (HT h Hin Hh). }
+  apply HH. exact (prefix_in pre h post H T HHT HndHT HhH x Hx).
+Qed.
+
+Lemma prioritize_head p ps l : In p l -> exists rest, prioritize (p :: ps) l = p :: rest.
+Proof.
+  intro Hin.
+  assert (Hstep : prioritize (p :: ps) l = move_front (prioritize ps l) p).
+  { unfold prioritize. cbn [rev]. rewrite fold_left_app. reflexivity. }
+  rewrite Hstep. unfold move_front.
+  assert (Hm : mem p (prioritize ps l) = true) by (apply mem_In, prioritize_In; exact Hin).
+  rewrite Hm. eauto.
+Qed.
+
+Section Hints.
+  Variable FO : FloatOps.
+  Variable R : oracles FO.
+  Notation cmatch := (cmatch FO).
+  Variable c : ctx FO.
+
+  (* e qualifies: it passes the gates and, probed alone, is accepted with the exit test firing
+     (chaos < 0.1 for a hint, or merely accepted for the BOM-indicated encoding) *)
+  Definition qualifies (e : string) : Prop :=
+    passes_gates FO c e /\ exists m, probe FO R c e = Ok (Accept FO m true).
+
+  Lemma loop_body_return s e r :
+    In e IANA_SUPPORTED -> loop_body FO R c s e = Ok (Return FO r) ->
+    qualifies e /\ exists found, r = [found] /\ In e (suitable_encodings FO found).
+  Proof.
+    intros HE H. unfold loop_body in H.
+    destruct (gate_filtered FO c e) eqn:G1; [discriminate|]. destruct (gate_utf16 FO c e) eqn:G2; [discriminate|].
+    bind_inv H. destruct a as [[si dec]|]; [|discriminate].
+    destruct (gate_similar _ e); [discriminate|]. bind_inv H.
+    assert (Hp : probe FO R c e = Ok a) by (unfold probe; rewrite E; cbn [bind]; exact E0).
+    destruct a as [| |fb|m x]; cbn [apply_verdict] in H; try discriminate.
+    destruct x; [|discriminate].
+    destruct (get_by_encoding FO _ e) as [found|] eqn:Hg; [|discriminate]. injection H as <-.
+    split; [split; [split; assumption|eauto]|]. exists found. split; [reflexivity|].
+    unfold get_by_encoding in Hg. rewrite (iana_name_supported e HE) in Hg.
+    apply find_some in Hg as [_ Hg]. apply mem_In in Hg. exact Hg.
+  Qed.
+
+  Lemma loop_body_soft s e s' :
+    loop_body FO R c s e = Ok (Next FO s') ->
+    soft_failed FO s' = soft_failed FO s \/ soft_failed FO s' = soft_failed FO s ++ [e].
+  Proof.
+    intro H. unfold loop_body in H.
+    destruct (gate_filtered FO c e); [injection H as <-; left; reflexivity|].
+    destruct (gate_utf16 FO c e); [injection H as <-; left; reflexivity|].
+    bind_inv H. destruct a as [[si dec]|]; [|injection H as <-; left; reflexivity].
+    destruct (gate_similar _ e); [injection H as <-; left; reflexivity|]. bind_inv H.
+    destruct a as [| |fb|m x]; cbn [apply_verdict] in H.
+    - injection H as <-; left; reflexivity.
+    - injection H as <-; left; reflexivity.
+    - injection H as <-. right. destruct fb as [entry|]; [|reflexivity].
+      unfold set_fallback. destruct (String.eqb _ _); [|destruct (String.eqb _ _)]; reflexivity.
+    - destruct x; [destruct (get_by_encoding FO _ e); discriminate|]. injection H as <-. left. reflexivity.
+  Qed.
+
+  (* a prefix of the order without qualifying candidate is passed without stopping *)
+  Lemma main_loop_prefix pre : forall rest s out,
+    (forall x, In x pre -> In x IANA_SUPPORTED) ->
+    (forall x, In x pre -> ~ qualifies x) ->
+    main_loop FO R c s (pre ++ rest) = Ok out ->
+    exists s', main_loop FO R c s' rest = Ok out
+               /\ (forall sf, In sf (soft_failed FO s') -> In sf (soft_failed FO s) \/ In sf pre).
+  Proof.
+    induction pre as [|x pre IH]; intros rest s out HS HQ H; cbn [app main_loop] in H.
+    - exists s. split; [exact H|]. intros sf Hsf. left; exact Hsf.
+    - bind_inv H. destruct a as [s1|r].
+      + destruct (IH rest s1 out) as (s' & Hm & Hsf); [intros y Hy; apply HS; right; exact Hy|intros y Hy; apply HQ; right; exact Hy|exact H|].
+        exists s'. split; [exact Hm|]. intros sf Hin. destruct (Hsf sf Hin) as [Hin1|Hin1]; [|right; right; exact Hin1].
+        destruct (loop_body_soft s x s1 E) as [Heq|Heq]; rewrite Heq in Hin1; [left; exact Hin1|].
+        apply in_app_or in Hin1 as [Hin1|[<-|[]]]; [left; exact Hin1|right; left; reflexivity].
+      + exfalso. apply (HQ x (or_introl eq_refl)). apply (loop_body_return s x r (HS x (or_introl eq_refl)) E).
+  Qed.
+
+  (* the step at a qualifying candidate that is not similarity-skipped *)
+  Lemma loop_body_at_qualifying s h out :
+    In h IANA_SUPPORTED -> qualifies h -> gate_similar (soft_failed FO s) h = false ->
+    loop_body FO R c s h = Ok out ->
+    exists found, out = Return FO [found] /\ In h (suitable_encodings FO found).
+  Proof.
+    intros HE [[G1 G2] (m & Hp)] G3 H. unfold loop_body in H. rewrite G1, G2 in H.
+    unfold probe in Hp. destruct (probe_pre FO R c h) as [[[si dec]|]| |]; cbn [bind] in *; try discriminate.
+    rewrite G3 in H. rewrite Hp in H. cbn [bind apply_verdict] in H.
+    destruct (get_by_encoding FO _ h) as [found|] eqn:Hg; [|discriminate]. injection H as <-.
+    exists found. split; [reflexivity|].
+    unfold get_by_encoding in Hg. rewrite (iana_name_supported h HE) in Hg.
+    apply find_some in Hg as [_ Hg]. apply mem_In in Hg. exact Hg.
+  Qed.
+End Hints.
+
+Section HintsTop.
+  Variable FO : FloatOps.
+  Variable R : oracles FO.
+
+  (* the hint list of a call: declared (pre-emptive only), BOM-indicated, ascii, utf-8 *)
+  Lemma make_ctx_prio b cfg inc exc h :
+    In h (c_prio FO (make_ctx FO R b cfg inc exc)) ->
+    (exists rest, c_prio FO (make_ctx FO R b cfg inc exc) = h :: rest) \/ In h HINT_NAMES.
+  Proof.
+    cbn [make_ctx c_prio]. destruct (if preemptive_behaviour FO cfg then declared FO R b else None) as [d|];
+      destruct (identify_sig b) as [[se sm]|] eqn:Hs; cbn [app]; intro H.
+    - destruct H as [<-|[<-|[<-|[<-|[]]]]]; [left; eauto| | |].
+      + right. unfold HINT_NAMES. right. right. apply identify_sig_some in Hs as [Hs _]. apply (in_map fst) in Hs. exact Hs.
+      + right. left; reflexivity.
+      + right. right. left; reflexivity.
+    - destruct H as [<-|[<-|[<-|[]]]]; [left; eauto|right; left; reflexivity|right; right; left; reflexivity].
+    - destruct H as [<-|[<-|[<-|[]]]]; [left; eauto|right; left; reflexivity|right; right; left; reflexivity].
+    - destruct H as [<-|[<-|[]]]; [left; eauto|right; right; left; reflexivity].
+  Qed.
+
+  Lemma empty_unsupported : ~ In ""%string IANA_SUPPORTED.
+  Proof. intro H. apply mem_In in H. vm_compute in H. discriminate. Qed.
+
+  (* only hints can fire the exit test *)
+  Lemma exit_only_hints b cfg inc exc e m :
+    In e IANA_SUPPORTED ->
+    probe FO R (make_ctx FO R b cfg inc exc) e = Ok (Accept FO m true) ->
+    In e (c_prio FO (make_ctx FO R b cfg inc exc)).
+  Proof.
+    set (c := make_ctx FO R b cfg inc exc). intros HE H. unfold probe in H.
+    destruct (probe_pre FO R c e) as [[[si dec]|]| |]; cbn [bind] in H; try discriminate.
+    unfold probe_rest in H. bind_inv H. bind_inv H. bind_inv H. bind_inv H.
+    destruct (negb a2); [discriminate|].
+    match type of H with (if ?x then _ else _) = _ => destruct x end; [discriminate|].
+    injection H as _ Hx. apply orb_true_iff in Hx as [Hx|Hx].
+    - apply andb_true_iff in Hx as [_ Hx]. apply mem_In; exact Hx.
+    - apply String.eqb_eq in Hx. unfold sig_enc, c in Hx |- *. cbn [make_ctx c_sig c_prio] in *.
+      destruct (identify_sig b) as [[se sm]|]; cbn [option_map unwrap_or fst] in Hx.
+      + subst e. apply in_or_app. right. left. reflexivity.
+      + subst e. exfalso. exact (empty_unsupported HE).
+  Qed.
+
+  (* C06, first part: the first candidate of the probing order that qualifies is what detection
+     returns, as the single result.  Everything before it in the order is a hint (the order puts
+     the hints first), so "no earlier hint qualifies" is the hypothesis on `pre`. *)
+  Theorem first_qualifying_hint_wins b cfg r inc exc pre h post :
+    b <> [] ->
+    canon_list "included " " is not a valid encoding name" (include_encodings FO cfg) = Ok inc ->
+    canon_list "excluded encoding " " is not a valid encoding name" (exclude_encodings FO cfg) = Ok exc ->
+    let c := make_ctx FO R b cfg inc exc in
+    prioritize (c_prio FO c) IANA_SUPPORTED = pre ++ h :: post ->
+    In h (c_prio FO c) -> qualifies FO R c h -> (forall x, In x pre -> ~ qualifies FO R c x) ->
+    from_bytes FO R b cfg = Ok r ->
+    (forall x, In x pre -> In x (c_prio FO c))
+    /\ exists found, r = [found] /\ In h (suitable_encodings FO found).
+  Proof.
+    intros Hb. destruct b as [|x0 b']; [contradiction|]. clear Hb. set (b := x0 :: b').
+    intros Hi He c Ho Hh Hq Hpre H. split.
+    { intros x Hx. eapply prioritize_before_hint; [apply supported_nodup|exact Ho|exact Hh|exact Hx]. }
+    unfold from_bytes in H. rewrite Hi, He in H. cbn [bind] in H. unfold b in H at 1. fold c in H. rewrite Ho in H.
+    bind_inv H.
+    assert (HS : forall x, In x (pre ++ h :: post) -> In x IANA_SUPPORTED).
+    { intros x Hx. rewrite <- Ho in Hx. apply order_supported in Hx. exact Hx. }
+    destruct (main_loop_prefix FO R c pre (h :: post) (init_state FO) a) as (s' & Hm & Hsf).
+    { intros x Hx. apply HS, in_or_app. left; exact Hx. } { exact Hpre. } { exact E. }
+    cbn [main_loop] in Hm. bind_inv Hm.
+    assert (HhS : In h IANA_SUPPORTED) by (apply HS, in_or_app; right; left; reflexivity).
+    assert (G3 : gate_similar (soft_failed FO s') h = false).
+    { destruct (make_ctx_prio b cfg inc exc h Hh) as [[rest Hr]|Hhint].
+      - (* h is the head of the hint list, hence of the order: nothing was probed before it *)
+        fold c in Hr. destruct (prioritize_head h rest IANA_SUPPORTED HhS) as [tl Htl].
+        rewrite <- Hr in Htl. rewrite Ho in Htl.
+        assert (Hpn : pre = []).
+        { destruct pre as [|y pre']; [reflexivity|]. cbn [app] in Htl. injection Htl as -> _.
+          pose proof (order_nodup (c_prio FO c)) as Hnd. rewrite Ho in Hnd. cbn [app] in Hnd. inversion Hnd; subst.
+          exfalso. apply H2, in_or_app. right. left. reflexivity. }
+        subst pre. unfold gate_similar. destruct (soft_failed FO s') as [|sf l] eqn:Hsl; [reflexivity|].
+        exfalso. destruct (Hsf sf) as [Hx|Hx]; [try rewrite Hsl; left; reflexivity|destruct Hx|destruct Hx].
+      - unfold gate_similar. clear -Hhint. induction (soft_failed FO s') as [|sf l IH]; [reflexivity|].
+        cbn [existsb]. rewrite (hint_not_similar h sf Hhint). exact IH. }
+    destruct (loop_body_at_qualifying FO R c s' h a0 HhS Hq G3 E0) as (found & -> & Hf).
+    injection Hm as <-. injection H as <-. eauto.
+  Qed.
+
+  (* C06, second part: if no hint qualifies, detection does not stop early *)
+  Theorem no_qualifying_hint_no_early_exit b cfg r inc exc :
+    b <> [] ->
+    canon_list "included " " is not a valid encoding name" (include_encodings FO cfg) = Ok inc ->
+    canon_list "excluded encoding " " is not a valid encoding name" (exclude_encodings FO cfg) = Ok exc ->
+    let c := make_ctx FO R b cfg inc exc in
+    (forall h, In h (c_prio FO c) -> ~ qualifies FO R c h) ->
+    from_bytes FO R b cfg = Ok r ->
+    exists s, main_loop FO R c (init_state FO) (prioritize (c_prio FO c) IANA_SUPPORTED) = Ok (Next FO s).
+  Proof.
+    intros Hb. destruct b as [|x0 b']; [contradiction|]. clear Hb. set (b := x0 :: b').
+    intros Hi He c Hn H. unfold from_bytes in H. rewrite Hi, He in H. cbn [bind] in H. unfold b in H at 1. fold c in H. bind_inv H.
+    destruct a as [s|r0]; [eauto|]. exfalso.
+    set (order := prioritize (c_prio FO c) IANA_SUPPORTED) in *.
+    destruct (main_loop_prefix FO R c order [] (init_state FO) (Return FO r0)) as (s' & Hm & _).
+    - intros x Hx. apply order_supported in Hx. exact Hx.
+    - intros x Hx [Hg (m & Hp)]. apply (Hn x); [|split; [exact Hg|eauto]].
+      apply order_supported in Hx. eapply exit_only_hints; eauto.
+    - rewrite app_nil_r. exact E.
+    - cbn [main_loop] in Hm. discriminate.
+  Qed.
+End HintsTop.
+
+Section EarlyExit.
+  Variable FO : FloatOps.
+  Variable R : oracles FO.
+  Variable c : ctx FO.
+
+  (* an early exit is always caused by a qualifying candidate, which is in the single result *)
+  Lemma main_loop_return encs : forall s r,
+    (forall e, In e encs -> In e IANA_SUPPORTED) ->
+    main_loop FO R c s encs = Ok (Return FO r) ->
+    exists h, In h encs /\ qualifies FO R c h /\ exists found, r = [found] /\ In h (suitable_encodings FO found).
+  Proof.
+    induction encs as [|e encs IH]; intros s r HS H; cbn [main_loop] in H; [discriminate|].
+    bind_inv H. destruct a as [s'|r0].
+    - destruct (IH s' r) as (h & Hh & Hq); [intros x Hx; apply HS; right; exact Hx|exact H|].
+      exists h. split; [right; exact Hh|exact Hq].
+    - injection H as <-. destruct (loop_body_return FO R c s e r0 (HS e (or_introl eq_refl)) E) as [Hq Hf].
+      exists e. split; [left; reflexivity|]. split; assumption.
+  Qed.
+End EarlyExit.
